@@ -102,6 +102,8 @@ def apply(modules) -> dict:
     _namedtuples(modules, known, stats)
     stats["unrolled_attribute_loops"] = _unroll_attribute_loops(modules)
     stats["expanded_option_decorators"] = _expand_option_decorators(modules)
+    stats["priority_tables"] = _priority_tables(modules)
+    stats["set_methods"] = _set_methods(modules)
     stats["named_conditions"] = _named_conditions(modules, known)
     return stats
 
@@ -377,6 +379,174 @@ def _expand_option_decorators(modules) -> int:
             if changed:
                 fn.decorator_list = new
                 count += 1
+    if count:
+        from .model import set_parents
+
+        for m in modules.values():
+            ast.fix_missing_locations(m.tree)
+            set_parents(m.tree)
+    return count
+
+
+# ---------------------------------------------------------------------------------------------------------------- N6
+def _first_match_helper(fn):
+    """`def pick(candidates, fallback=None): for cond, value in candidates: if cond: return value; return fallback` - returns (table parameter, fallback
+    parameter or None, fallback default) if the function is exactly that, else None"""
+    a = fn.args
+    if a.posonlyargs or a.kwonlyargs or a.vararg or a.kwarg or fn.decorator_list or not 1 <= len(a.args) <= 2:
+        return None
+    table = a.args[0].arg
+    fb = a.args[1].arg if len(a.args) == 2 else None
+    fb_default = a.defaults[0] if (fb is not None and len(a.defaults) == 1) else None
+    if fb is not None and len(a.defaults) > 1:
+        return None
+    body = _body_without_docstring(fn)
+    if len(body) != 2 or not isinstance(body[0], ast.For) or body[0].orelse or not isinstance(body[1], ast.Return):
+        return None
+    lp = body[0]
+    if not (isinstance(lp.iter, ast.Name) and lp.iter.id == table and isinstance(lp.target, ast.Tuple) and len(lp.target.elts) == 2 and all(isinstance(t, ast.Name) for t in lp.target.elts)):
+        return None
+    c, v = lp.target.elts[0].id, lp.target.elts[1].id
+    if len(lp.body) != 1 or not isinstance(lp.body[0], ast.If) or lp.body[0].orelse or ast.unparse(lp.body[0].test) != c:
+        return None
+    inner = lp.body[0].body
+    if len(inner) != 1 or not isinstance(inner[0], ast.Return) or inner[0].value is None or ast.unparse(inner[0].value) != v:
+        return None
+    last = body[1].value
+    if fb is None:
+        if not (last is None or (isinstance(last, ast.Constant) and last.value is None)):
+            return None
+    elif last is None or ast.unparse(last) != fb:
+        return None
+    return table, fb, fb_default
+
+
+def _pure_value(e) -> bool:
+    """a value whose construction has no effect: a name, a constant, an attribute read, or an exception object built from such (`errors.SomethingException(..)`)"""
+    if _is_pure_condition(e):
+        return True
+    if isinstance(e, ast.Call) and not any(isinstance(x, ast.Starred) for x in e.args) and all(k.arg for k in e.keywords):
+        fn = ast.unparse(e.func)
+        if fn.split(".")[-1].endswith(("Exception", "Error")):
+            return all(_pure_value(x) for x in e.args) and all(_pure_value(k.value) for k in e.keywords)
+    return False
+
+
+def _priority_tables(modules) -> int:
+    """N6: `x = pick(((c1, v1), (c2, v2), ..), fallback=f)` with a first-match helper of the exact shape above, a literal table, conditions and values without
+    effects (so that evaluating all of them in front of the call or only the ones that are reached makes no difference) is written out as
+    `if c1: x = v1 / elif c2: x = v2 / .. / else: x = f`"""
+    count = 0
+    for m in modules.values():
+        helpers = {}
+        bound = {}
+        for n in ast.walk(m.tree):
+            if isinstance(n, (ast.FunctionDef, ast.AsyncFunctionDef, ast.ClassDef)):
+                bound[n.name] = bound.get(n.name, 0) + 1
+            if isinstance(n, ast.Name) and isinstance(n.ctx, (ast.Store, ast.Del)):
+                bound[n.id] = bound.get(n.id, 0) + 1
+        for st in m.tree.body:
+            if isinstance(st, ast.FunctionDef) and bound.get(st.name) == 1:
+                sh = _first_match_helper(st)
+                if sh is not None:
+                    helpers[st.name] = sh
+        if not helpers:
+            continue
+
+        def rewrite(block):
+            nonlocal count
+            for i, st in enumerate(list(block)):
+                for fld in ("body", "orelse", "finalbody"):
+                    sub = getattr(st, fld, None)
+                    if isinstance(sub, list) and sub and isinstance(sub[0], ast.stmt):
+                        rewrite(sub)
+                for h in getattr(st, "handlers", []) or []:
+                    rewrite(h.body)
+                if not (isinstance(st, ast.Assign) and len(st.targets) == 1 and isinstance(st.targets[0], ast.Name) and isinstance(st.value, ast.Call) and isinstance(st.value.func, ast.Name) and st.value.func.id in helpers):
+                    continue
+                table_p, fb_p, fb_default = helpers[st.value.func.id]
+                call = st.value
+                args = {}
+                params = [table_p] + ([fb_p] if fb_p else [])
+                if len(call.args) > len(params) or any(isinstance(a, ast.Starred) for a in call.args):
+                    continue
+                for pn, av in zip(params, call.args):
+                    args[pn] = av
+                okk = True
+                for k in call.keywords:
+                    if k.arg not in params or k.arg in args:
+                        okk = False
+                    else:
+                        args[k.arg] = k.value
+                tbl = args.get(table_p)
+                if not okk or not isinstance(tbl, (ast.Tuple, ast.List)) or not tbl.elts:
+                    continue
+                rows = []
+                for e in tbl.elts:
+                    if not (isinstance(e, ast.Tuple) and len(e.elts) == 2 and _is_pure_condition(e.elts[0]) and _pure_value(e.elts[1])):
+                        rows = None
+                        break
+                    rows.append((e.elts[0], e.elts[1]))
+                fb = args.get(fb_p) if fb_p else None
+                if fb is None:
+                    fb = fb_default if fb_default is not None else ast.Constant(value=None)
+                if rows is None or not _pure_value(fb):
+                    continue
+                tname = st.targets[0].id
+                node = None
+                for cnd, val in reversed(rows):
+                    new_if = ast.If(test=_copy(cnd), body=[ast.Assign(targets=[ast.Name(id=tname, ctx=ast.Store())], value=_copy(val))], orelse=[node] if node is not None else [ast.Assign(targets=[ast.Name(id=tname, ctx=ast.Store())], value=_copy(fb))])
+                    node = new_if
+                for x in ast.walk(node):
+                    ast.copy_location(x, st)
+                block[block.index(st)] = node
+                count += 1
+
+        for fn in [n for n in ast.walk(m.tree) if isinstance(n, (ast.FunctionDef, ast.AsyncFunctionDef))]:
+            rewrite(fn.body)
+    if count:
+        from .model import set_parents
+
+        for m in modules.values():
+            ast.fix_missing_locations(m.tree)
+            set_parents(m.tree)
+    return count
+
+
+# ---------------------------------------------------------------------------------------------------------------- N7
+_SET_METHODS = {"difference": ast.Sub, "union": ast.BitOr, "intersection": ast.BitAnd, "symmetric_difference": ast.BitXor}
+_SET_UPDATES = {"difference_update": ast.Sub, "intersection_update": ast.BitAnd, "symmetric_difference_update": ast.BitXor}
+
+
+def _set_methods(modules) -> int:
+    """N7: the method spelling of the set operators with one argument (`a.difference(b)`, `a.union(b)`, `a.difference_update(b)` ...) is written as the
+    operator (`a - b`, `a | b`, `a -= b`): these names exist on sets only (no class of the package defines one of them - checked), and the rules read the operators"""
+    own = {n.name for m in modules.values() for n in ast.walk(m.tree) if isinstance(n, (ast.FunctionDef, ast.AsyncFunctionDef))}
+    if own & (set(_SET_METHODS) | set(_SET_UPDATES)):
+        return 0
+    count = 0
+
+    class T(ast.NodeTransformer):
+        def visit_Call(self, node):
+            nonlocal count
+            self.generic_visit(node)
+            f = node.func
+            if isinstance(f, ast.Attribute) and f.attr in _SET_METHODS and len(node.args) == 1 and not node.keywords and not isinstance(node.args[0], ast.Starred):
+                count += 1
+                return ast.copy_location(ast.BinOp(left=f.value, op=_SET_METHODS[f.attr](), right=node.args[0]), node)
+            return node
+
+        def visit_Expr(self, node):
+            nonlocal count
+            self.generic_visit(node)
+            c = node.value
+            if isinstance(c, ast.Call) and isinstance(c.func, ast.Attribute) and c.func.attr in _SET_UPDATES and len(c.args) == 1 and not c.keywords and isinstance(c.func.value, ast.Name) and not isinstance(c.args[0], ast.Starred):
+                count += 1
+                return ast.copy_location(ast.AugAssign(target=ast.Name(id=c.func.value.id, ctx=ast.Store()), op=_SET_UPDATES[c.func.attr](), value=c.args[0]), node)
+            return node
+
+    for m in modules.values():
+        T().visit(m.tree)
     if count:
         from .model import set_parents
 
